@@ -934,11 +934,29 @@ impl<'a> Pool<'a> {
             let n = self.rng.range(1, 3);
             let cmds: Vec<Spec> = (0..n).map(|_| self.command(depth - 1)).collect();
             let a = Spec::Alt(cmds);
-            if self.rng.chance(1, 4) {
-                fields.push(Spec::wrap(W::Optional { catch: false }, self.id(), a));
+            let mut cf = if self.rng.chance(1, 4) {
+                Spec::wrap(W::Optional { catch: false }, self.id(), a)
             } else {
-                fields.push(a);
+                a
+            };
+            let no_words = !fields.iter().any(|f| {
+                let mut is = Vec::new();
+                f.level_items(&mut is);
+                is.iter().any(|i| i.is_pos())
+            });
+            if self.o.decor && no_words && self.rng.chance(1, 6) {
+                // `construct!(flag, cmd).group_help(..)`: commands inside a block that starts with
+                // a named item
+                let flag = Spec::Item(self.flag_item(Leaf::Switch));
+                let gid = self.id();
+                let w = if self.rng.chance(2, 3) {
+                    W::GroupHelp(format!("group-{}", gid))
+                } else {
+                    W::WithGroupHelp(format!("wgroup-{}", gid))
+                };
+                cf = Spec::wrap(w, gid, Spec::Seq(vec![flag, cf]));
             }
+            fields.push(cf);
         }
         let mut o = OptSpec::plain(Spec::Seq(fields));
         self.info(&mut o, id);
